@@ -54,7 +54,15 @@ func SelfTest(r *fw.Run, spec Spec) {
 	r.Extra["selftest"] = out
 	r.Extra["selftest_killed"] = killed
 	r.Extra["selftest_total"] = total
-	fmt.Printf("   selftest: %d/%d seeded mutants detected by their rule\n", killed, total)
+	skipped := 0
+	for _, o := range out {
+		if o.Outcome == "skipped" {
+			skipped++
+			r.Note("selftest: control %q skipped: %s (the source moved; the rule itself still ran)", o.Mutant, o.By)
+		}
+	}
+	r.Extra["selftest_skipped"] = skipped
+	fmt.Printf("   selftest: %d/%d seeded mutants detected by their rule (%d skipped: anchor text gone)\n", killed, total, skipped)
 }
 
 func runMutant(prop string, spec Spec, path, content string, m Mutant) (outcome, by string) {
